@@ -564,3 +564,8 @@ def run(ctx, replay):
     x11fl.ONLY = "C10"
     fresh_overlay(ctx, "x11fl")
     x11fl.run_tier(ctx)
+    # pooled upstream TCP connections (TcpPool.tla): a connection handed out is nobody else's, what an exchange accepts
+    # from it carries its own id and question, nothing is pooled after an error; the pool's internal accounting and the
+    # server ranking (families c11 / pool / rank) are logged OFF-PROPERTY here
+    import x10tp
+    x10tp.run_tier(ctx, families=("c10",))
